@@ -104,10 +104,9 @@ func (rb *RowBlock) Populate(ctx context.Context, eds eds.Accessor) error {
 
 func (rb *RowBlock) UnmarshalFn(root *share.AxisRoots) UnmarshalFn {
 	return func(cntrData, idData []byte) error {
-		if !rb.Container.IsEmpty() {
-			return nil
-		}
-
+		// NOTE: data is verified even if the Block is already populated. The hasher accepts whatever
+		// this function accepts, and the accepted bytes are handed to every other requester of the
+		// same CID, which unmarshals them on its own and trusts them to be valid.
 		rid, err := shwap.RowIDFromBinary(idData)
 		if err != nil {
 			return fmt.Errorf("unmarhaling RowID: %w", err)
